@@ -73,6 +73,12 @@ var vTransforms = []vTransform{
 	{Name: "swapcase", Line: func(l string, _ int) string { return swapCase(l) }},
 	{Name: "crlf", Line: func(l string, _ int) string { return l + "\r" }},
 	{Name: "tabs", Line: func(l string, _ int) string { return strings.ReplaceAll(l, " ", "\t") }},
+	// other kinds of horizontal white space: no-break space everywhere; em space, thin space,
+	// ideographic space, no-break space by line
+	{Name: "nbsp", Line: func(l string, _ int) string { return strings.ReplaceAll(l, " ", "\u00a0") }},
+	{Name: "unicode-blanks", Line: func(l string, i int) string {
+		return strings.ReplaceAll(l, " ", []string{"\u2003", "\u2009", "\u3000", "\u00a0 ", "\u202f"}[i%5])
+	}},
 	{Name: "double-blanks", Line: func(l string, _ int) string { return strings.ReplaceAll(l, " ", "  ") }},
 	{Name: "indent+trailing", Line: func(l string, i int) string { return strings.Repeat(" ", 1+i%7) + l + " \t " }},
 	// amounts of white space beyond any plausible internal line or buffer size
